@@ -343,7 +343,9 @@ def run_for(prop, pl):
     return res.to_dict()
 
 # ---------------------------------------------------------------------------- C17 album art
-def art_server(picture, limit, embedded, mime, errcode):
+def art_server(picture, limit, embedded, mime, errcode, limit2=None, cutlf=False):
+    """limit2: chunk limit from the second chunk on (the server may hand out less than before); cutlf: the transport delivers a chunk
+    up to its last payload byte first and the terminating line feed separately"""
     def handle(srv, line):
         parts = line.split()
         if parts[0] not in (b'readpicture', b'albumart'):
@@ -360,11 +362,15 @@ def art_server(picture, limit, embedded, mime, errcode):
             if embedded == 'only' or picture is None:
                 return b'ACK [50@0] {albumart} No file exists\n' if False else b'OK\n'
             data = picture
-        chunk = data[off:off + limit]
+        lim = limit if (off == 0 or limit2 is None) else limit2
+        chunk = data[off:off + lim]
         out = b'size: %d\n' % len(data)
         if mime and parts[0] == b'readpicture':
             out += b'type: ' + mime + b'\n'
-        return out + b'binary: %d\n' % len(chunk) + chunk + b'\nOK\n'
+        out += b'binary: %d\n' % len(chunk)
+        if cutlf:
+            srv.barriers.append(len(srv.t.stream) + len(out) + len(chunk))
+        return out + chunk + b'\nOK\n'
     return handle
 
 def run_art(P, res, pl):
@@ -377,12 +383,18 @@ def run_art(P, res, pl):
         picture = bytes([0x41 + (i % 5) if i % 3 else 10 for i in range(size)])
         S.server.art_requests = []
         other_err = None
+        limit2 = None
+        if limit >= 2 and size > limit and I.ctx.choose(2, 'limit2') == 1:
+            limit2 = limit - 1
+        cutlf = I.ctx.choose(2, 'cutlf') == 1 if size else False
+        I._artx = (limit2, cutlf)
+        S.step_deliver = cutlf
         if src == 0:
-            S.server.custom = art_server(picture, limit, True, mime, None)
+            S.server.custom = art_server(picture, limit, True, mime, None, limit2, cutlf)
         elif src == 1:
-            S.server.custom = art_server(picture, limit, False, None, None)
+            S.server.custom = art_server(picture, limit, False, None, None, limit2, cutlf)
         elif src == 2:
-            S.server.custom = art_server(picture, limit, False, None, 5)
+            S.server.custom = art_server(picture, limit, False, None, 5, limit2, cutlf)
         else:
             if I.ctx.choose(2, 'nonekind') == 0:
                 S.server.custom = art_server(None, limit, False, None, None)
@@ -442,7 +454,8 @@ def run_art(P, res, pl):
                 bad = bad or 'too many requests: %d' % len(reqs)
         res.cls('art source %d' % src, nontrivial=True)
         if bad:
-            res.violations.append({'what': bad, 'input': {'scenario': pl, 'source': src, 'mime': mime is not None, 'other_err': other_err}})
+            res.violations.append({'what': bad, 'input': {'scenario': pl, 'source': src, 'mime': mime is not None, 'other_err': other_err,
+                                                          'limit2': pr.interp._artx[0], 'cutlf': pr.interp._artx[1]}})
         if len(res.samples) < 1:
             res.samples.append({'size': size, 'limit': limit, 'source': src, 'requests': [r.decode() for r in reqs]})
         res.take_stats(pr.ctx.stats); pr.ctx.stats.__init__()
@@ -565,7 +578,7 @@ def replay_for(prop, rec):
     if pl.get('family') == 'art':
         src = inp.get('source', 0)
         nsrc = 4 if inp.get('other_err') else (src if src < 3 else 3)
-        spec = '%d,%d,%d,%d' % (pl['size'], pl['limit'], nsrc, 1 if inp.get('mime') else 0)
+        spec = '%d,%d,%d,%d,%d,%d' % (pl['size'], pl['limit'], nsrc, 1 if inp.get('mime') else 0, inp.get('limit2') or 0, 1 if inp.get('cutlf') else 0)
         if pl.get('two'):
             out = run_replay(['client', 'art:other;art:song', '-', 'OK', spec, 'loop', 'issue0'] + ['loop', 'deliver'] * 12 + ['poll0', 'issue0'])
         else:
